@@ -234,40 +234,47 @@ Definition Known_multiline_comment (ts : list token) : bool := existsb contains_
    breaks of the first run's output). *)
 Definition strip_nl (s : text) : text := filter (fun c => negb (c =? NL)%N) s.
 
-Record rstate := mkR { r_st : jstate; r_cur : list chunk; r_groups : list (list chunk) }.
+Definition fchunk := (chunk * bool)%type.     (* a chunk of an emitted line and the is_eol flag it was processed with *)
+Record rstate2 := mkR2 { q_st : jstate; q_cur : list fchunk; q_groups : list (list fchunk) }.
 
-Definition rechunk_piece (o : options) (c : chunk) (is_eol last : bool) (r : rstate) (p : text) : rstate :=
-  let st := r_st r in
-  let ignored := match c_ty c with
-                 | None => text_eqb p [NL] && negb (match j_line st with [] => true | _ => false end)
-                           && (byte_len (j_line st) <=? o_label_margin o)
-                 | _ => false
-                 end in
+Definition is_ignored (o : options) (c : chunk) (st : jstate) (p : text) : bool :=
+  match c_ty c with
+  | None => text_eqb p [NL] && negb (match j_line st with [] => true | _ => false end)
+            && (byte_len (j_line st) <=? o_label_margin o)
+  | _ => false
+  end.
+
+Definition rechunk_piece2 (o : options) (c : chunk) (is_eol last : bool) (r : rstate2) (p : text) : rstate2 :=
+  let st := q_st r in
+  let ignored := is_ignored o c st p in
   let st' := join_piece o (c_ty c) is_eol last st p in
-  let cur := if ignored then r_cur r
-             else match strip_nl p with [] => r_cur r | q => r_cur r ++ [mkChunk (c_ty c) (c_indent c) q] end in
+  let cur := if ignored then q_cur r
+             else match strip_nl p with [] => q_cur r | q => q_cur r ++ [(mkChunk (c_ty c) (c_indent c) q, is_eol)] end in
   if (negb ignored && contains_nl p) || last
-  then mkR st' [] (if List.length (j_out st) <? List.length (j_out st') then r_groups r ++ [cur] else r_groups r)
-  else mkR st' cur (r_groups r).
+  then mkR2 st' [] (if List.length (j_out st) <? List.length (j_out st') then q_groups r ++ [cur] else q_groups r)
+  else mkR2 st' cur (q_groups r).
 
-Fixpoint rechunk_loop (o : options) (cs : list chunk) (r : rstate) : rstate :=
+Fixpoint rechunk_loop2 (o : options) (cs : list chunk) (r : rstate2) : rstate2 :=
   match cs with
   | [] => r
   | c :: rest =>
-      let r0 := mkR (set_indent (r_st r) (c_indent c)) (r_cur r) (r_groups r) in
-      rechunk_loop o rest (fold_left (rechunk_piece o c (next_is_nl rest) (is_last rest)) (split_inclusive (c_str c)) r0)
+      let r0 := mkR2 (set_indent (q_st r) (c_indent c)) (q_cur r) (q_groups r) in
+      rechunk_loop2 o rest (fold_left (rechunk_piece2 o c (next_is_nl rest) (is_last rest)) (split_inclusive (c_str c)) r0)
   end.
+
+Definition nlc : chunk := mkChunk None 0 [NL].
+Fixpoint join_groups2 (gs : list (list fchunk)) : list chunk :=
+  match gs with
+  | [] => []
+  | g :: rest => map fst g ++ nlc :: join_groups2 rest
+  end.
+Definition rechunk2 (cs : list chunk) (o : options) : list chunk :=
+  join_groups2 (q_groups (rechunk_loop2 o cs (mkR2 j_init [] []))).
+
 
 (* every line is followed by a newline chunk -- also the last one: a second run sees the newline that format_tokens
    pushes in front of the Eof token (`nop` re-parses to the chunks [nop; "\n"], `nop` + empty line to [nop; "\n"; "\n"]) *)
-Fixpoint join_groups (gs : list (list chunk)) : list chunk :=
-  match gs with
-  | [] => []
-  | g :: rest => g ++ mkChunk None 0 [NL] :: join_groups rest
-  end.
-
-Definition rechunk (cs : list chunk) (o : options) : list chunk :=
-  join_groups (r_groups (rechunk_loop o cs (mkR j_init [] []))).
+Definition rechunk (cs : list chunk) (o : options) : list chunk := rechunk2 cs o.
 
 (* the chunk lists for which re-chunking is meaningful: no empty chunk; labels and comments on one line; a plain chunk
    has a newline at most as its last character *)
@@ -284,3 +291,6 @@ Definition stable_chunk (c : chunk) : bool :=
   | Some _ => negb (contains_nl (c_str c))
   end.
 Definition stable_chunks (cs : list chunk) : bool := forallb stable_chunk cs.
+(* the last chunk carries a line break (format_tokens ends every non-empty file with the newline in front of Eof) *)
+Definition ends_with_nl (cs : list chunk) : bool :=
+  match rev cs with [] => true | f :: _ => contains_nl (c_str f) end.
